@@ -30,6 +30,14 @@ func runScramSequence(c *Ctx, mech string, seq []string) {
 	answeredBadFirst := false
 	firstValidFor := "" // the client-first-bare the last valid server-first answered
 	idx := 0
+	// "|" in the sequence: the same Client dials again; what follows is played on the second connection
+	cur, second := seq, []string(nil)
+	for i, l := range seq {
+		if l == "|" {
+			cur, second = seq[:i], seq[i+1:]
+			break
+		}
+	}
 	verified := false
 	ackedInvalid := false
 	lastFinalValid := false
@@ -77,10 +85,10 @@ func runScramSequence(c *Ctx, mech string, seq []string) {
 			}
 		}
 		sentFinal = false
-		if idx >= len(seq) {
+		if idx >= len(cur) {
 			return SrvAction{Kind: "reply", Code: 535, Text: "5.7.8 sequence exhausted"}, true
 		}
-		letter := seq[idx]
+		letter := cur[idx]
 		idx++
 		ch := func(s string) (SrvAction, bool) {
 			return SrvAction{Kind: "reply", Code: 334, Text: base64.StdEncoding.EncodeToString([]byte(s))}, true
@@ -150,9 +158,35 @@ func runScramSequence(c *Ctx, mech string, seq []string) {
 			return SrvAction{Kind: "reply", Code: 535, Text: "5.7.8 no"}, true
 		}
 	}
-	run := runDialCase(c, sc, fmt.Sprintf("len=%d:%s", len(seq), seq[len(seq)-1]), true)
+	if second != nil {
+		// the second connection of the same Client: the exchange of the first one is history (its ServerSignature
+		// is what "final-stale" replays)
+		re := *sc
+		first := sc.dynamic
+		switched := false
+		re.dynamic = func(pos int, verb, line string) (SrvAction, bool) {
+			if !switched {
+				switched = true
+				if authMsg != "" {
+					staleAuthMsg, staleIter = authMsg, curIter
+				}
+				cur, idx = second, 0
+				clientFirstBare, cnonce, serverFirst, authMsg, firstValidFor = "", "", "", "", ""
+				verified, sentFinal, lastFinalValid = false, false, false
+			}
+			return first(pos, verb, line)
+		}
+		sc.Redial = &re
+	}
+	run := runDialCase(c, sc, fmt.Sprintf("len=%d:%s", len(seq), seq[len(seq)-1]), second == nil)
 	if run == nil {
 		return
+	}
+	if second != nil {
+		if run.Second == nil {
+			return
+		}
+		run = run.Second
 	}
 	c.rep.OracleChecked++
 	in := map[string]interface{}{"mechanism": mech, "server_sequence": seq}
@@ -177,7 +211,7 @@ func runScramSequence(c *Ctx, mech string, seq []string) {
 	if ackedInvalid {
 		c.Violate("c15-ack-invalid-final", fmt.Sprintf("%s: the client acknowledged a server-final message that is not valid for the running exchange (sequence %v)", mech, seq), in)
 	}
-	if !success && verified && seq[len(seq)-1] == "235" && idx == len(seq) {
+	if !success && verified && cur[len(cur)-1] == "235" && idx == len(cur) {
 		c.Violate("c15-valid-exchange-rejected", fmt.Sprintf("%s: a complete valid exchange ending in 235 was reported as failure: %v", mech, run.Err), in)
 	}
 }
